@@ -185,6 +185,27 @@ class KOracle:
         return None
 
 
+def kroutes(cls, w2, matrix):
+    """the three realisations of a new-style view (str_value, bytes_value, array_value) must agree;
+    returns the name of the deviating one.  Old-style SeqView has the single route `value`."""
+    if cls == "old":
+        return None
+    s = str(w2)
+    sc = "+1" if w2.step == 1 else "-1" if w2.step == -1 else "+k" if w2.step > 1 else "-k"
+    for route in ("str_value", "bytes_value", "array_value"):
+        cell = f"kernel-{cls}|{route}|{sc}"
+        matrix[cell] = matrix.get(cell, 0) + 1
+    if w2.str_value != s:
+        return "str_value"
+    if w2.bytes_value.decode("utf8") != s:
+        return "bytes_value"
+    a = _alpha().from_indices(w2.array_value)
+    a = a if isinstance(a, str) else "".join(a)
+    if a != s:
+        return "array_value"
+    return None
+
+
 def apply_kop(w, op):
     if op[0] == "s":
         return w[slice(op[1], op[2], op[3])]
@@ -228,11 +249,13 @@ def run_klattice(case):
     states = {}
     nontrivial = 0
     seen_keys = set()
+    matrix = {}
     for a in case["avals"]:
         for b in case["bvals"]:
             for c in case["cvals"]:
                 op = ("s", a, b, c)
-                ob = catch(lambda: obs_view(apply_kop(w, op)))
+                w2 = catch(lambda: apply_kop(w, op))
+                ob = w2 if isinstance(w2, Exc) else catch(lambda: obs_view(w2))
                 out.append(ob)
                 o2 = orc.apply(op) if speaks else None
                 if o2 is None:
@@ -245,13 +268,20 @@ def run_klattice(case):
                         bad.append(dict(key=key, ops=case["pre"] + [list(op)], expected_str=o2.string(),
                                         expected_indices=o2.idx, observed=jsonable(ob), aspect=aspect))
                 elif not isinstance(ob, Exc):
+                    dev = catch(lambda: kroutes(cls, w2, matrix)) if speaks else None
+                    if dev is not None:
+                        key = kkey(cls, dev if isinstance(dev, str) else "realisation-raised", w, op, off)
+                        if key not in seen_keys:
+                            seen_keys.add(key)
+                            bad.append(dict(key=key, ops=case["pre"] + [list(op)], expected_str=o2.string(),
+                                            observed=jsonable(ob), aspect=str(dev)))
                     if ob[8] and (abs(1 if c is None else c) > 1 or (a is not None and a < 0) or (b is not None and b < 0)):
                         nontrivial += 1
                     st = tuple(ob[:5])
                     if case.get("want_states") and st not in states:
                         states[st] = [a, b, c]
     full = [base, out]
-    res = dict(digest=digest(full), n=len(out), nontrivial=nontrivial, bad=bad)
+    res = dict(digest=digest(full), n=len(out), nontrivial=nontrivial, bad=bad, matrix=matrix)
     if case.get("want_states"):
         res["states"] = [[list(k), v] for k, v in states.items()]
     if case.get("detail"):
@@ -267,6 +297,7 @@ def run_kchain(case):
     bad = []
     nontrivial = False
     applied = []
+    matrix = {}
     for op in case["ops"]:
         op = tuple(op)
         applied.append(list(op))
@@ -287,8 +318,13 @@ def run_kchain(case):
             if aspect is not None:
                 bad.append(dict(key=kkey(cls, aspect, w, op, off), ops=list(applied), expected_str=o2.string(),
                                 expected_indices=o2.idx, observed=jsonable(ob), aspect=aspect))
-            elif o2.idx and op[0] == "s" and abs(op[3] or 1) > 1:
-                nontrivial = True
+            else:
+                if o2.idx and op[0] == "s" and abs(op[3] or 1) > 1:
+                    nontrivial = True
+                dev = catch(lambda: kroutes(cls, w2, matrix))
+                if dev is not None:
+                    bad.append(dict(key=kkey(cls, dev if isinstance(dev, str) else "realisation-raised", w, op, off), ops=list(applied),
+                                    expected_str=o2.string(), observed=jsonable(ob), aspect=str(dev)))
         if w2 is not None:
             full.append([ob, obs_positions(w2)])
             w = w2
@@ -300,7 +336,7 @@ def run_kchain(case):
                 orc.idx = []
         else:
             full.append([ob, None])
-    res = dict(digest=digest(full), n=len(full), nontrivial=1 if nontrivial else 0, bad=bad[:3])
+    res = dict(digest=digest(full), n=len(full), nontrivial=1 if nontrivial else 0, bad=bad[:3], matrix=matrix)
     if case.get("detail"):
         res["full"] = jsonable(full)
     return res
@@ -346,6 +382,75 @@ def make(impl, mt, s, off=0, name=NAME):
     if off:
         kw["annotation_offset"] = off
     return cogent3.make_seq(s, name=name, moltype=mt, **kw)
+
+
+ORIGINS = {"old": ["standalone", "coll_get", "coll_rc", "aln_get", "aln_gapped"],
+           "new": ["standalone", "coll_get", "coll_seqs", "coll_rc"]}
+ROUTES = {"old": ["str", "iter", "getitem"], "new": ["str", "iter", "getitem", "bytes", "array"]}
+STEP_CLASSES = ["+1", "+k", "-1", "-k"]
+
+
+def make_origin(impl, mt, s, off, origin, name=NAME):
+    """the same sequence obtained through different public routes; returns (seq, origin actually used).
+    Collections carry no annotation offset, so those origins are only used with off == 0."""
+    import cogent3
+
+    if origin == "standalone" or off:
+        return make(impl, mt, s, off, name), "standalone"
+    kw = dict(new_type=True) if impl == "new" else {}
+    data = {name: s, "zz": (s[:2] or "A") if not origin.startswith("aln") else s}
+    if origin in ("coll_get", "coll_seqs", "coll_rc"):
+        c = cogent3.make_unaligned_seqs(data, moltype=mt, **kw)
+        if origin == "coll_rc":
+            c = c.rc()
+        return (c.seqs[name] if origin == "coll_seqs" else c.get_seq(name)), origin
+    if origin in ("aln_get", "aln_gapped"):
+        a = cogent3.make_aligned_seqs(data, moltype=mt)
+        return (a.get_seq(name) if origin == "aln_get" else a.get_gapped_seq(name)), origin
+    raise ValueError(origin)
+
+
+def step_class(seq):
+    st = seq._seq.step
+    return "+1" if st == 1 else "-1" if st == -1 else "+k" if st > 1 else "-k"
+
+
+def realisations(seq, impl):
+    """every route by which the displayed characters can be read, each rendered as a str (or an Exc)"""
+    import numpy
+
+    n = len(seq)
+    out = {
+        "str": catch(lambda: str(seq)),
+        "iter": catch(lambda: "".join(str(x) for x in seq)),
+        "getitem": catch(lambda: "".join(str(seq[j]) for j in range(n))),
+    }
+    if impl == "new":
+        out["bytes"] = catch(lambda: bytes(seq).decode("utf8"))
+
+        def via_array():
+            view = seq._seq
+            alpha = getattr(view, "alphabet", None) or view.seq.alphabet
+            arr = numpy.array(seq)
+            res = alpha.from_indices(arr)
+            return res if isinstance(res, str) else "".join(res)
+
+        out["array"] = catch(via_array)
+    return out
+
+
+def check_routes(seq, impl, origin, expected, matrix, bad, applied, seen):
+    """compare every realisation route with the oracle's string; count the cell (origin, route, step class)"""
+    sc = step_class(seq)
+    for route, got in realisations(seq, impl).items():
+        cell = f"{origin}|{route}|{sc}"
+        matrix[cell] = matrix.get(cell, 0) + 1
+        if got != expected:
+            key = f"seq:{impl}:route-{route}:{origin}:{'strided' if sc.endswith('k') else 'contiguous'}-{'rev' if sc[0] == '-' else 'fwd'}-view"
+            if key not in seen:
+                seen.add(key)
+                bad.append(dict(key=key, ops=list(applied), aspect=f"route-{route}", expected_str=expected,
+                                observed=jsonable(got), origin=origin, step_class=sc))
 
 
 def kind_code(seq):
@@ -488,12 +593,21 @@ def skey(impl, aspect, op, s, ob=None):
 
 def run_schain(case):
     impl, mt, p, off = case["impl"], case["mt"], case["p"], case["off"]
-    s = make(impl, mt, p, off)
+    s, origin = make_origin(impl, mt, p, off, case.get("origin", "standalone"))
     orc = SOracle(p, mt, off)
+    if origin == "coll_rc":
+        orc = orc.apply(("rc",)) if mt in COMP else orc.apply(("slice", None, None, -1))
     full = [obs_seq(s)]
     bad = []
     applied = []
     nontrivial = False
+    matrix = {}
+    seen_routes = set()
+    first = orc.check(full[0])
+    if first is not None:
+        bad.append(dict(key=f"seq:{impl}:origin-{origin}:{first}", ops=[], aspect=first, expected_str=orc.string(), observed=jsonable(full[0])))
+    else:
+        check_routes(s, impl, origin, orc.string(), matrix, bad, applied, seen_routes)
     for op in case["ops"]:
         op = tuple(op)
         applied.append(list(op))
@@ -514,8 +628,11 @@ def run_schain(case):
             if aspect is not None:
                 bad.append(dict(key=skey(impl, aspect, op, s, ob), ops=list(applied), aspect=aspect,
                                 expected_str=o2.string(), expected_indices=o2.idx, observed=jsonable(ob)))
-            elif o2.idx and (o2.sign < 0 or o2.stride > 1):
-                nontrivial = True
+            else:
+                if o2.idx and (o2.sign < 0 or o2.stride > 1):
+                    nontrivial = True
+                if s2 is not None and not bad:
+                    check_routes(s2, impl, origin, o2.string(), matrix, bad, applied, seen_routes)
         full.append(ob)
         if s2 is not None:
             s = s2
@@ -524,7 +641,7 @@ def run_schain(case):
             elif o2 is None:
                 orc = orc.clone()
                 orc.idx = []
-    res = dict(digest=digest(full), n=len(full), nontrivial=1 if nontrivial else 0, bad=bad[:3])
+    res = dict(digest=digest(full), n=len(full), nontrivial=1 if nontrivial else 0, bad=bad[:3], matrix=matrix, origin=origin)
     if case.get("detail"):
         res["full"] = jsonable(full)
     return res
@@ -663,7 +780,7 @@ def run_methods(case):
     """apply the chain, then compare every discovered method on the view-backed sequence and on
     make_seq(str(view)); also the dunder protocol"""
     impl, mt, p, off = case["impl"], case["mt"], case["p"], case["off"]
-    s = make(impl, mt, p, off)
+    s, origin = make_origin(impl, mt, p, off, case.get("origin", "standalone"))
     for op in case["ops"]:
         try:
             s = apply_sop(s, tuple(op))
@@ -683,11 +800,13 @@ def run_methods(case):
     skipped = []
     view_dir = "rev-view" if s._seq.step < 0 else "fwd-view"
     strided = "strided" if abs(s._seq.step) > 1 else "contiguous"
+    # findings on collection-backed sequences get their own key (the standalone keys are those of the first report)
+    origin_tag = "" if origin == "standalone" else f":{origin}:{strided}"
     state_before = (str(s), s.parent_coordinates())
 
     def record(name, args, rv, rf):
         if rv != rf:
-            results.append(dict(key=seq_key(impl, op_shape((name,)), s),
+            results.append(dict(key=seq_key(impl, op_shape((name,)), s) + origin_tag,
                                 method=name, args=[a if not hasattr(a, "moltype") else f"<seq {a!s}>" for a in args],
                                 on_view=rv, on_fresh=rf, view_str=text, view_state=[view_dir, strided]))
 
@@ -733,7 +852,7 @@ def run_methods(case):
     if cp != want:
         results.append(dict(key=seq_key(impl, "copy", s, None, cp == ["raised", "ValueError"]),
                             method="copy", on_view=cp, on_fresh=want, view_str=text, view_state=[view_dir, strided]))
-    return dict(n_methods=len(discover(s)), skipped=skipped, bad=results, view=text, nontrivial=1 if (s._seq.step < 0 or abs(s._seq.step) > 1) and text else 0,
+    return dict(origin=origin, step_class=step_class(s), n_methods=len(discover(s)), skipped=skipped, bad=results, view=text, nontrivial=1 if (s._seq.step < 0 or abs(s._seq.step) > 1) and text else 0,
                 methods=discover(s) if case.get("list_methods") else None)
 
 
